@@ -147,6 +147,12 @@ var Variants = []Variant{
 		c.Provs[p].Requires = append(append([]string{"*A0"}, c.Provs[p].Requires...), "ctx")
 		return c
 	}},
+	{"ctx-between-args", func(d *Decl, p int) *Decl {
+		// unsupplied types discovered before AND after the provider's own context parameter
+		c := d.Clone()
+		c.Provs[p].Requires = append(append([]string{"*A0", "ctx"}, c.Provs[p].Requires...), "*A2")
+		return c
+	}},
 	{"value", func(d *Decl, p int) *Decl {
 		if len(d.Provs[p].Requires) > 0 || d.Provs[p].Fallible {
 			return nil
@@ -526,6 +532,9 @@ func Universe(tier string) []*Decl {
 				if n == 4 && bitsSet(a)%2 == 1 && a != 0b0111 {
 					continue // thorough, n=4: half of the Async subsets
 				}
+				if !thorough && n == 3 && bitsSet(a) == 1 {
+					continue // quick: a single Async provider never starts a goroutine
+				}
 				basesC = append(basesC, Base(n, e, a, 0))
 				all := uint(1)<<n - 1
 				if n >= 2 && (a == 0 || a == all || a == all>>1) {
@@ -589,7 +598,7 @@ func Universe(tier string) []*Decl {
 			c.Prelude = pre
 			add(c, pre)
 			for _, v := range Variants {
-				if v.Name != "ctx-first" && v.Name != "ctx-last-with-arg" {
+				if v.Name != "ctx-first" && v.Name != "ctx-last-with-arg" && v.Name != "ctx-between-args" {
 					continue
 				}
 				for p := range b.Provs {
